@@ -12,7 +12,7 @@ def main(p):
     out = dict(calls=0, valuations=0, failures=[], nontrivial=[], outcomes={}, samples=[])
     try:
         lib = probelib.Lib(a['package'])
-        C = lib.client_cls('Res')
+        C = getattr(lib.pkg, p.args['client']) if p.args.get('client') else lib.client_cls('Res')
     except BaseException as e:
         out['import_error'] = probelib.exc_info(e)
         return out
@@ -35,7 +35,7 @@ def main(p):
         pat = cell['pattern']
         shp = respath.shape(pat)
         srcname = {0: 'msg-field', 1: 'file-def', 2: 'child-type', 3: 'type-ref', 4: 'dep-file-def', 5: 'dep-msg-ref', 6: 'lro-response', 7: 'deep-ref',
-                   8: 'redeclared-common', 9: 'common'}[cell['source']]
+                   8: 'redeclared-common', 9: 'common', 10: 'in-resource-response', 11: 'map-value'}[cell['source']]
         b = getattr(C, cell['helper'] + '_path', None)
         q = getattr(C, 'parse_' + cell['helper'] + '_path', None)
         if b is None or q is None:
